@@ -87,6 +87,27 @@ if __name__ == "__main__":
             if isinstance(r, dict) and r.get("exit"):
                 print(p, "exit", r["exit"], r["first"])
         print("silent:", [p for p, r in res.items() if isinstance(r, dict) and r.get("exit") == 0])
+    elif cmd == "benign":
+        rows = []
+        base = os.path.join(VERIF, "seeded_benign")
+        for name in sorted(os.listdir(base)):
+            sd = os.path.join(base, name)
+            if not os.path.isfile(os.path.join(sd, "patch.diff")):
+                continue
+            meta = json.load(open(os.path.join(sd, "meta.json")))
+            res = check(sd)
+            if "error" in res:
+                rows.append({"seed": name, "property": meta.get("property"), "error": res["error"]})
+                print(name, "ERROR", res["error"])
+                continue
+            alarms = {p: {"exit": r["exit"], "first": r["first"]} for p, r in res.items() if r.get("exit")}
+            rows.append({"seed": name, "property": meta.get("property"), "title": meta.get("title"), "refactor_kind": meta.get("refactor_kind"), "alarms": alarms})
+            print(name, meta.get("refactor_kind"), "->", {p: r["exit"] for p, r in alarms.items()} or "silent")
+        json.dump(rows, open(os.path.join(base, "RESULTS.json"), "w"), indent=1)
+        n = len(rows)
+        sil = sum(1 for r in rows if not r.get("alarms") and "error" not in r)
+        print(f"{n} behaviour-preserving refactors: {sil} silent, {sum(1 for r in rows if any(a['exit'] == 1 for a in r.get('alarms', {}).values()))} false VIOLATION, "
+              f"{sum(1 for r in rows if r.get('alarms') and not any(a['exit'] == 1 for a in r['alarms'].values()))} undecided only")
     elif cmd == "all":
         rows = []
         for name in sorted(os.listdir(os.path.join(VERIF, "seeded"))):
